@@ -1,17 +1,38 @@
-"""What is claimed, per property.  bin/mkmanifest turns this into MANIFEST.json."""
-
-HOOK_COMMITS = ["fd1c1ef"]
+"""What is claimed, per property: collected from the CLAIM dict of every checks/<ID>.py.
+bin/mkmanifest turns this into MANIFEST.json."""
+import importlib
+import os
+import re
+import subprocess
 
 NOTES = ("Technique family: machine-checked proof in Coq 8.16.1. Every check = P (translator + full .vo build of Props/<id>.v, "
          "Print Assumptions recorded) + T (model vs implementation built from /repo's working tree) + search with an independent oracle. "
          "Files that do not build on linux/amd64 go1.23 (*_compat.go, arm64, neon) are out of scope. Genuine defects: known_findings.json.")
 
+# properties deliberately not claimed, with the reason (empty: every property is meant to be claimed)
 NOT_CLAIMED = {}
 
-CLAIMED = {
-    "C18": {
-        "text": "Theorems (Coq, all 2^16 Config values, finite sweep by vm_compute lifted with forallb_forall): Config.Froze - regenerated from sonic.go on every run - sets exactly the documented option bits; the bits agree across public/internal/JIT/VM/native layers and are pairwise distinct; Encoder/Decoder setters flip the same bit. The documented *effect* of every switch and the entry-point equivalences are decided on the real code by metamorphic runs with encoding/json as oracle (tie/search half, not a theorem).",
-        "note": "Trusted: Coq kernel + vm_compute, the translator tools/tx, extraction (ExtrOcamlBasic), Go harness, encoding/json as oracle. Option effects are tested, not proved.",
-        "technique": "Coq proof over a model regenerated from source (translator) + exhaustive froze tie + metamorphic differential search",
-    },
-}
+
+def _claims():
+    out = {}
+    d = os.path.dirname(__file__)
+    for fn in sorted(os.listdir(d)):
+        m = re.match(r"^(C[0-9]{2,3})\.py$", fn)
+        if not m:
+            continue
+        mod = importlib.import_module("checks." + m.group(1))
+        if getattr(mod, "CLAIM", None):
+            out[m.group(1)] = mod.CLAIM
+    return out
+
+
+def _hook_commits():
+    try:
+        o = subprocess.run(["git", "-C", "/repo", "log", "--format=%h %s"], stdout=subprocess.PIPE, text=True).stdout
+        return [l.split()[0] for l in o.splitlines() if "verif hook" in l]
+    except Exception:
+        return []
+
+
+CLAIMED = _claims()
+HOOK_COMMITS = _hook_commits()
